@@ -340,13 +340,15 @@ def run_ambig_index(ctx: Ctx) -> RuleResult:
             if sub in t:
                 return i
         return -1
+    res.default_props = ['C03', 'C04', 'C16']
     order = [idx('ExpandSingleChild'), idx('maybe_create_child_filter'), idx('propagate_positions'),
              idx('maybe_create_ambiguous_expander'), idx('AmbiguousIntermediateExpander')]
     ok = all(i >= 0 for i in order) and order == sorted(order) and len(set(order)) == 5
-    res.ob(site, 'chain order %s' % [e[:40] for e in elts], ok)
+    res.ob(site, 'chain order %s' % [e[:40] for e in elts], ok, props=['C03', 'C04', 'C16', 'C06'])
     if not ok:
         res.finding(ib, lists[0], 'the shaping wrappers are chained in the order %s; the index computations assume '
-                    '[ExpandSingleChild, child filter, positions, ambiguous expander, intermediate expander]' % order, construct='chain-order')
+                    '[ExpandSingleChild, child filter, positions, ambiguous expander, intermediate expander]' % order, construct='chain-order',
+                    props=['C03', 'C04', 'C16', 'C06'])
     # both index computations enumerate the rule's *unfiltered* expansion
     for fq in ('lark.parse_tree_builder:maybe_create_child_filter', 'lark.parse_tree_builder:maybe_create_ambiguous_expander'):
         f = repo.func(fq)
